@@ -160,6 +160,14 @@ func (e *Engine) preamble(body string) string {
 		for i := 0; i < len(lit); i++ {
 			fmt.Fprintf(&b, "(assert (= (sat %s %d) %d))\n", m[0], i, lit[i])
 		}
+		if len(lit) <= 12 {
+			// literal extensionality: a string with the literal's content is the literal
+			fmt.Fprintf(&b, "(assert (forall ((a Str)) (! (=> (and (= (slen a) %d)", len(lit))
+			for i := 0; i < len(lit); i++ {
+				fmt.Fprintf(&b, " (= (sat a %d) %d)", i, lit[i])
+			}
+			fmt.Fprintf(&b, ") (= a %s)) :pattern ((slen a)))))\n", m[0])
+		}
 	}
 	var fks []int
 	seenF := map[int]bool{}
